@@ -4,7 +4,7 @@
 
 use crate::codec::{Frame, read_frame, write_all_retry};
 use crate::families::client_blocking::draw_net;
-use crate::framework::{Case, Family, bytes, pick, range};
+use crate::framework::{Case, Family, bytes, coin, pick, range};
 use repe::constants::BodyFormat;
 use repe::server::Router;
 use repe::value_stream::{Compression, RouterValueStreamExt, StreamOpts};
@@ -475,20 +475,34 @@ fn c09_pull(case: &Case) {
         case.harness_error("connect");
         return;
     };
-    let fails = payload.fails();
+    // sometimes the connection dies in mid-transfer (reset, or the server side closes): the
+    // pull may fail, but it may never return fewer bytes than the producer emitted as a success
+    let conn_loss = if simkernel::choose(4) == 0 { Some((pick(&[20u64, 300, 2_000, 20_000, 200_000]), coin())) } else { None };
+    let killer = conn_loss.map(|(after_us, by_reset)| {
+        let conn = net::connections().last().cloned();
+        thread::spawn(move || {
+            thread::sleep(Duration::from_micros(after_us));
+            if let Some(c) = conn {
+                simkernel::count("fault.connection_lost_during_pull");
+                if by_reset { net::reset_conn(&c) } else { net::close_side(&c, net::Side::B) }
+            }
+        })
+    });
+    let fails = payload.fails() || conn_loss.is_some();
+    let lossy = conn_loss.is_some();
     match (&payload, api) {
         (Payload::Value(rec), 0 | 1) => {
             let r = repe::pull_value::<Record>(&client, "res");
-            case.check(matches!(&r, Ok(v) if v == rec), "pulled-value-differs", || format!("pull_value returned {:?}", r.as_ref().map(|v| v.name.clone()).map_err(|e| e.to_string())));
+            case.check(matches!(&r, Ok(v) if v == rec) || (lossy && r.is_err()), "pulled-value-differs", || format!("pull_value returned {:?}", r.as_ref().map(|v| v.name.clone()).map_err(|e| e.to_string())));
         }
         (Payload::Typed(v), 0 | 1) => {
             let r = repe::pull_typed_slice::<f64>(&client, "res");
-            case.check(matches!(&r, Ok(g) if g.iter().map(|x| x.to_bits()).eq(v.iter().map(|x| x.to_bits()))), "pulled-value-differs", || format!("pull_typed_slice returned {:?}", r.as_ref().map(|g| g.len()).map_err(|e| e.to_string())));
+            case.check(matches!(&r, Ok(g) if g.iter().map(|x| x.to_bits()).eq(v.iter().map(|x| x.to_bits()))) || (lossy && r.is_err()), "pulled-value-differs", || format!("pull_typed_slice returned {:?}", r.as_ref().map(|g| g.len()).map_err(|e| e.to_string())));
         }
         (Payload::Complex(v), 0 | 1) => {
             let r = repe::pull_complex_slice::<f32>(&client, "res");
             case.check(
-                matches!(&r, Ok(g) if g.len() == v.len() && g.iter().zip(v.iter()).all(|(a, b)| a.re.to_bits() == b.re.to_bits() && a.im.to_bits() == b.im.to_bits())),
+                matches!(&r, Ok(g) if g.len() == v.len() && g.iter().zip(v.iter()).all(|(a, b)| a.re.to_bits() == b.re.to_bits() && a.im.to_bits() == b.im.to_bits())) || (lossy && r.is_err()),
                 "pulled-value-differs",
                 || format!("pull_complex_slice returned {:?}", r.as_ref().map(|g| g.len()).map_err(|e| e.to_string())),
             );
@@ -506,21 +520,29 @@ fn c09_pull(case: &Case) {
                 }
                 Ok(v)
             });
-            if fails {
+            if payload.fails() {
                 case.check(r.is_err(), "truncated-stream-accepted", || format!("pull_consume returned Ok({} bytes) although the producer failed", r.as_ref().map(|v| v.len()).unwrap_or(0)));
+            } else if lossy {
+                case.check(!matches!(&r, Ok(v) if *v != logical), "truncated-stream-accepted", || format!("the connection was lost in mid-transfer and pull_consume returned Ok({} bytes) of {}", r.as_ref().map(|v| v.len()).unwrap_or(0), logical.len()));
             } else {
                 case.check(matches!(&r, Ok(v) if *v == logical), "pulled-bytes-differ", || format!("pull_consume returned {:?}, want {} bytes", r.as_ref().map(|v| v.len()).map_err(|e| e.to_string()), logical.len()));
             }
         }
         _ => {
             let r = repe::pull_to_vec(&client, "res");
-            if fails {
+            if payload.fails() {
                 case.check(r.is_err(), "truncated-stream-accepted", || format!("pull_to_vec returned Ok({} bytes) although the producer failed", r.as_ref().map(|v| v.len()).unwrap_or(0)));
+            } else if lossy {
+                case.check(!matches!(&r, Ok(v) if *v != logical), "truncated-stream-accepted", || format!("the connection was lost in mid-transfer and pull_to_vec returned Ok({} bytes) of {}", r.as_ref().map(|v| v.len()).unwrap_or(0), logical.len()));
             } else {
                 case.check(matches!(&r, Ok(v) if *v == logical), "pulled-bytes-differ", || format!("pull_to_vec returned {:?}, want {} bytes", r.as_ref().map(|v| v.len()).map_err(|e| e.to_string()), logical.len()));
             }
         }
     }
+    if let Some(k) = killer {
+        k.join().ok();
+    }
+    let _ = fails;
     // the client stays usable and nothing is left pending
     case.check(client.verif_pending_len() == 0, "pending-residue", || format!("{} pending after pull", client.verif_pending_len()));
     case.nontrivial();
